@@ -101,7 +101,7 @@ func VxC12_Spelling() {
 		if !d.numeric {
 			return "", ""
 		}
-		n := vxDigits(p, 3)
+		n := vxDigits(p, vxArgDigits())
 		canon = "=" + n
 		spelled = "=" + n
 		if vxChoice(p+".quoted", 2) == 1 {
@@ -198,4 +198,12 @@ func VxC12_Window() {
 	// inside the window under every admitted reading => allowed; outside under every reading => refused
 	vxAssert(vxImplies(vxZLess(staleFor, clamped), got), "C12/huge-window-refuses")
 	vxAssert(vxImplies(vxZLess(exact, staleFor), !got), "C12/window-exceeded-but-allowed")
+}
+
+// vxArgDigits: numeric arguments of 3 symbolic digits (quick) or 6 (thorough)
+func vxArgDigits() int {
+	if vxTier() == "thorough" {
+		return 6
+	}
+	return 3
 }
